@@ -279,7 +279,9 @@ class ModelClient:
             self.geographic_unit_type,
             estimands,
             estimand_baselines,
-            data=preprocessed_data,
+            # the handler adds (and, for the margin, overwrites) columns in place: work on a copy, so that a caller who
+            # hands us the same data frame for every estimate run gets the same answer every time
+            data=preprocessed_data.copy() if preprocessed_data is not None else None,
             s3_client=s3.S3CsvUtil(TARGET_BUCKET),
         )
         preprocessed_data_handler.data = preprocessed_data_handler.select_rows_in_states(
